@@ -16,6 +16,19 @@ fn bytes_json(b: &[u8]) -> Value {
     Value::Array(b.iter().map(|x| json!(*x)).collect())
 }
 
+/// "rep": R - every logical byte of a write is laid down R times (writes of tens of KiB, totals on exact multiples of 64 KiB):
+/// contents are reported in logical bytes again - the 2 bytes the destination held before, then one value per complete run of R
+/// equal bytes; anything else (a torn or missing run) is reported as 255 so that it cannot pass for data
+fn squash(b: &[u8], rep: usize) -> Value {
+    if rep <= 1 { return bytes_json(b); }
+    let mut out: Vec<u8> = b.iter().take(PRE.len()).cloned().collect();
+    let rest = if b.len() > PRE.len() { &b[PRE.len()..] } else { &b[0..0] };
+    for ch in rest.chunks(rep) {
+        if ch.len() == rep && ch.iter().all(|x| *x == ch[0]) { out.push(ch[0]); } else { out.push(255); }
+    }
+    bytes_json(&out)
+}
+
 enum CallRes {
     File(Vec<u8>),
     Len(u64, TempFileBuffer<SharedSink>),
@@ -66,6 +79,7 @@ fn start_call(op: &str, buf: TempFileBuffer<SharedSink>, out: SharedSink) -> mps
 
 pub fn run_case(c: &Value) -> Value {
     let inmem = c["inmem"].as_i64().unwrap_or(1) == 1;
+    let rep = c["rep"].as_u64().unwrap_or(1).max(1) as usize;
     let hist = c["hist"].as_array().expect("hist");
     let sink = SharedSink::with_short(PRE.to_vec(), c["short"].as_u64().unwrap_or(0) as usize);
     let (b, w): (TempFileBuffer<SharedSink>, TempFileBufferWriter<SharedSink>) = TempFileBuffer::new(inmem);
@@ -95,7 +109,7 @@ pub fn run_case(c: &Value) -> Value {
         match op {
             "w" => {
                 let n = e["n"].as_u64().unwrap() as usize;
-                let data: Vec<u8> = (0..n).map(|k| nextb + k as u8).collect();
+                let data: Vec<u8> = (0..n).flat_map(|k| std::iter::repeat(nextb + k as u8).take(rep)).collect();
                 nextb += n as u8;
                 let wr = writer.as_mut().expect("writer alive");
                 let r = std::panic::catch_unwind(std::panic::AssertUnwindSafe(|| {
@@ -149,8 +163,8 @@ pub fn run_case(c: &Value) -> Value {
                 };
                 match r {
                     None => { ev["tag"] = json!("hang"); result = format!("hang in {}", op); }
-                    Some(CallRes::File(bytes)) => { ev["tag"] = json!("file"); ev["val"] = bytes_json(&bytes); }
-                    Some(CallRes::Len(n, b)) => { ev["tag"] = json!("len"); ev["val"] = json!([n]); buf = Some(b); }
+                    Some(CallRes::File(bytes)) => { ev["tag"] = json!("file"); ev["val"] = squash(&bytes, rep); }
+                    Some(CallRes::Len(n, b)) => { ev["tag"] = json!("len"); ev["val"] = json!([if n % rep as u64 == 0 { n / rep as u64 } else { 1_000_000 + n }]); buf = Some(b); }
                     Some(CallRes::Err(s)) => { ev["tag"] = json!("err"); result = format!("error in {}: {}", op, s); }
                     Some(CallRes::Panic(s)) => { ev["tag"] = json!("panic"); result = format!("panic in {}: {}", op, s); }
                 }
@@ -162,7 +176,7 @@ pub fn run_case(c: &Value) -> Value {
             None => json!(2),
         };
         ev["rk"] = json!(if real_known { 1 } else { 0 });
-        ev["real"] = bytes_json(&sink.contents());
+        ev["real"] = squash(&sink.contents(), rep);
         events.push(ev);
         if result != "ok" {
             break;
